@@ -266,7 +266,38 @@ class C13(object):
                 pos += n
                 if desc["countall"]:
                     off += nmax
+        nobj = 0
+        if viol is None:
+            # the same frames as sparse_frame objects labelled one after the other with sparseframe.sparse_localmax (largest
+            # first or in scan order, some of them twice under another label name); all labels are read afterwards
+            import io, contextlib
+            rr = random.Random(len(frames) * 7919 + sum(len(f["val"]) for f in frames))
+            objs = []
+            order = [k for k, f in enumerate(frames) if len(f["val"])]
+            if rr.random() < 0.5:
+                order.sort(key=lambda k: -len(frames[k]["val"]))
+            with contextlib.redirect_stdout(io.StringIO()):
+                for k in order:
+                    f = frames[k]
+                    fr = self.sf.sparse_frame(np.array(f["row"], np.uint16), np.array(f["col"], np.uint16), (desc["ns"], desc["nf"]),
+                                              pixels={"intensity": np.array(f["val"], np.float32)})
+                    nl = self.sf.sparse_localmax(fr)
+                    objs.append((k, fr, "localmax", nl))
+                    if rr.random() < 0.3:
+                        nl2 = self.sf.sparse_localmax(fr, label_name="again")
+                        objs.append((k, fr, "again", nl2))
+            nobj = len(objs)
+            for k, fr, lname, nl in objs:
+                f = frames[k]
+                ref, nmax = ref_sparse(np.array(f["row"]), np.array(f["col"]), np.array(f["val"], np.float32))
+                if nl != nmax or not np.array_equal(np.asarray(fr.pixels[lname]), ref):
+                    viol = {"class": "labels-differ", "key": "sparse_localmax:labels-differ",
+                            "detail": "sparse_localmax on %d frame objects one after the other: the labels '%s' of frame %d, read after the "
+                                      "last call, are not steepest ascent on that frame (%d labels reported, %d maxima)" %
+                                      (len(objs), lname, k, nl, nmax)}
+                    break
         meas = enginea.run_measures(st, cfg)
+        meas["frame_objects_labelled_in_sequence"] = nobj
         meas["variant"] = {"SparseScan.lmlabel": 1}
         meas["image_kind"] = {"scan": 1}
         return {"digest": enginea.sha(st["digest"], lab_all), "sig": enginea.sha(repr(frames)), "nontrivial": True,
